@@ -928,7 +928,7 @@ func (h *hist) alter() {
 			// C05/C20, reported separately): wait for the merger first
 			h.persist()
 		}
-		if h.chance("unique", 30) {
+		if !keyCol(c) && h.chance("unique", 30) {
 			seen := map[string]bool{}
 			uniq := true
 			for _, r := range t.rows {
